@@ -10,6 +10,7 @@ fn leaves(c: &Cfg) -> usize {
     match c {
         Cfg::Mem | Cfg::Phys => 1,
         Cfg::Alt(s, _) | Cfg::Sub(s, _, _) => leaves(s),
+        Cfg::OvShared(_, dirs) => dirs.len(),
         Cfg::Ov(l) => l.iter().map(leaves).sum(),
     }
 }
@@ -241,6 +242,8 @@ fn overlay_plans(tier: Tier) -> Vec<Plan> {
     });
     // sibling names that are prefixes of each other (the reserved `*_wo` names stay excluded: with
     // them the marker of `a` collides with the marker directory of `a_wo` by design)
+    let wo = Universe::new("U_wo{a_wox,a_wox/b_work,c}", &["/a_wox", "/a_wox/b_work", "/c"]);
+    v.push(populated(mem2(), Order::Asc, alphabet(wo.clone(), &W1, 1, true), &wo, false));
     let pfx = Universe::new("U_pfx{a,ab,a/a,a/ab}", &["/a", "/ab", "/a/a", "/a/ab"]);
     v.push(populated(
         mem2(),
@@ -271,7 +274,14 @@ fn overlay_plans(tier: Tier) -> Vec<Plan> {
     let subs = Cfg::Ov(vec![Cfg::sub(Cfg::Mem, "/rw"), Cfg::sub(Cfg::Mem, "/base/v1")]);
     v.push(populated(subs.clone(), Order::Asc, alphabet(u3(), &W1, 1, true), &u2, true));
     v.push(populated(Cfg::Ov(vec![Cfg::Phys, Cfg::sub(Cfg::Phys, "/image/base")]), Order::Asc, alphabet(u3(), &W1, 1, false), &u2, false));
+    // all layers are directories of ONE filesystem (how the crate's own tests build their overlays)
+    let shared = |inner: Cfg, dirs: &[&str]| Cfg::OvShared(Box::new(inner), dirs.iter().map(|d| d.to_string()).collect());
+    v.push(populated(shared(Cfg::Mem, &["/upper", "/lower"]), Order::Asc, alphabet(u3(), &W1, 2, true), &u2, true));
+    v.push(populated(shared(Cfg::Phys, &["/up", "/layers/low"]), Order::Asc, alphabet(u3(), &W1, 1, false), &u2, false));
+    v.push(populated(shared(Cfg::Mem, &["/u", "/m", "/l"]), Order::Asc, alphabet(u3(), &W1, 1, false), &u2, false));
     if tier == Tier::Thorough {
+        v.push(populated(shared(Cfg::Mem, &["/u", "/m", "/l"]), Order::Asc, a3.clone(), &u3(), false));
+        v.push(populated(shared(Cfg::Phys, &["/up", "/layers/low"]), Order::Asc, a3.clone(), &u3(), false));
         v.push(populated(Cfg::Ov(vec![Cfg::sub(Cfg::Mem, "/a/b/c"), Cfg::Mem, Cfg::sub(Cfg::Mem, "/x")]), Order::Asc, a3.clone(), &u2, false));
         v.push(populated(mem2(), Order::Asc, a4.clone(), &u3(), true));
         v.push(populated(
